@@ -393,6 +393,7 @@ func (s *Sim) sentWhileLocked(qe *QEventRec, r *Req) bool {
 
 func (s *Sim) resetDelivered(rec *ResetRec) {
 	rec.DlvSeq = s.seqNow()
+	rec.DlvCut = s.Cut
 	rec.Dlv = true
 	rec.Quiet = s.numParked() == 0 && s.allDelivered()
 	rec.Must = map[string]bool{}
@@ -850,6 +851,62 @@ func (s *Sim) resetQuiescence() {
 				s.violate("C12", "a", "refetch-missing", "system reset %v (delivered at a quiet moment) matches the cached resource %s, which clients hold, but no get request for it followed", rec.Resources, vk)
 			}
 		}
+	}
+	// a resource whose first get request is still outstanding when a matching
+	// reset arrives is re-fetched as well (the answer under way may predate what
+	// the reset announces)
+	s.mu.Lock()
+	type late struct {
+		r0  *Req
+		rec *ResetRec
+	}
+	var lates []late
+	for _, rec := range s.W.Resets {
+		if !rec.Dlv || s.gwStopped {
+			continue
+		}
+		for _, r0 := range s.tr.reqs {
+			if r0.Type != "get" || r0.Rf != 0 || !r0.EventSubbed || !r0.GotData || !r0.Delivered || !(r0.Seq < rec.DlvSeq && rec.DlvSeq < r0.DlvSeq) {
+				continue
+			}
+			res := s.W.Res[r0.Name]
+			if res == nil || res.IsQuery || r0.Query != "" {
+				continue
+			}
+			match := false
+			for _, p := range rec.Resources {
+				if matchPattern(p, r0.Name) {
+					match = true
+				}
+			}
+			if !match {
+				continue
+			}
+			found := false
+			for _, q := range s.tr.reqs {
+				// (a re-fetch already under way for an earlier reset covers this one)
+				// (or one whose answer had reached the gateway but may not have been
+				// handled yet)
+				if q != r0 && q.Type == "get" && q.Name == r0.Name && q.Query == "" && (q.Seq > rec.DlvSeq || !q.Delivered || q.DlvSeq > rec.DlvSeq || q.DlvCut >= rec.DlvCut) {
+					found = true
+				}
+			}
+			// the entry must have lived on: still subscribed when the answer came
+			alive := true
+			for _, ev := range s.tr.Log {
+				if ev.Kind == "unsub" && ev.NS == "event."+r0.Name && ev.Seq > r0.Seq && ev.Seq < r0.DlvSeq+1 {
+					alive = false
+				}
+			}
+			s.Stats["oracle.C12.a_loading"]++
+			if !found && alive {
+				lates = append(lates, late{r0, rec})
+			}
+		}
+	}
+	s.mu.Unlock()
+	for _, l := range lates {
+		s.violate("C12", "a", "refetch-missing-while-loading", "system reset %v reached the gateway while %s was outstanding (and was later answered with the resource), but no re-fetch of %s followed", l.rec.Resources, l.r0.ID, l.r0.Name)
 	}
 	// C12.b: access re-requests only for names matching an access pattern is part of C05.c;
 	// here: none at all for a reset without access patterns and without other triggers
